@@ -42,6 +42,10 @@ pub struct Schedule {
     pub sync_sel: Vec<u8>,
     /// burst length pattern for asynchronous deliveries
     pub bursts: Vec<u8>,
+    /// expiry family: the node cleans expired orphans before every request (hook), every delivery
+    /// is followed by a barrier, and expired blocks are offered again at the end
+    #[serde(default)]
+    pub expiry: bool,
 }
 
 #[derive(Clone, Debug, Serialize, Deserialize)]
@@ -67,12 +71,19 @@ pub fn schedule_strategy(n: usize) -> impl Strategy<Value = Schedule> {
             sync_pct,
             sync_sel,
             bursts,
+            expiry: false,
         })
 }
 
 pub fn variant_cfg(variant: u8) -> SpecCfg {
     let mut c = SpecCfg::default();
-    match variant % 4 {
+    match variant % 5 {
+        4 => {
+            // 2 blocks / epoch, constant difficulty: the orphan retention horizon (6 epochs) is
+            // 14 blocks, and the tip's epoch never decreases (work is proportional to height)
+            c.permanent_difficulty = true;
+            c.epoch_duration_target = 16;
+        }
         0 => {
             c.permanent_difficulty = false;
             c.genesis_epoch_length = 4;
@@ -198,15 +209,102 @@ fn expected_orphans(tree: &Tree, rec: &Received) -> usize {
     n
 }
 
+/// Expiry family: the model of `clean_expired_orphans` at a quiescent point.  A leader (absent parent
+/// with children in the pool) is cleaned together with every pooled descendant when its child
+/// satisfies `epoch + 6 < tip_epoch` (doc comment of `clean_expired_blocks`); when a leader has
+/// children that disagree (possible only for siblings in different epochs) the code looks at an
+/// arbitrary one, so the node is asked which way it went.  Cleaned blocks are forgotten entirely
+/// (store, header map, block status): the model treats them as never received.
+/// Returns (blocks expired, largest tip_epoch - epoch among orphans that stay).
+fn model_expire(tree: &Tree, rec: &mut Received, node: &Node) -> (usize, u64) {
+    let tip_epoch = node.shared.snapshot().tip_header().epoch().number();
+    let mut memo: BTreeMap<[u8; 32], bool> = BTreeMap::new();
+    let pool: BTreeSet<[u8; 32]> = tree
+        .order
+        .iter()
+        .filter(|h| rec.set.contains(&h32(h)) && orphan_rec(tree, rec, h, &mut memo))
+        .map(h32)
+        .collect();
+    let mut by_leader: BTreeMap<[u8; 32], Vec<H>> = BTreeMap::new();
+    for h in &tree.order {
+        if pool.contains(&h32(h)) {
+            let p = &tree.get(h).parent;
+            if !pool.contains(&h32(p)) {
+                by_leader.entry(h32(p)).or_default().push(h.clone());
+            }
+        }
+    }
+    let expired_by_rule = |h: &H| tree.get(h).block.epoch().number() + 6 < tip_epoch;
+    let mut removed: BTreeSet<[u8; 32]> = BTreeSet::new();
+    let mut doomed_leaders: BTreeSet<[u8; 32]> = BTreeSet::new();
+    for (leader, children) in &by_leader {
+        let flags: Vec<bool> = children.iter().map(|c| expired_by_rule(c)).collect();
+        let expire = if flags.iter().all(|f| *f == flags[0]) {
+            flags[0]
+        } else {
+            node.chain().get_orphan_block(node.shared.store(), &children[0]).is_none()
+        };
+        if expire {
+            doomed_leaders.insert(*leader);
+        }
+    }
+    // creation order lists parents before children
+    for h in &tree.order {
+        let k = h32(h);
+        if pool.contains(&k) {
+            let p = h32(&tree.get(h).parent);
+            if doomed_leaders.contains(&p) || removed.contains(&p) {
+                removed.insert(k);
+            }
+        }
+    }
+    let mut max_age = 0u64;
+    for h in &tree.order {
+        let k = h32(h);
+        if pool.contains(&k) && !removed.contains(&k) {
+            max_age = max_age.max(tip_epoch.saturating_sub(tree.get(h).block.epoch().number()));
+        }
+    }
+    for k in &removed {
+        rec.set.remove(k);
+        rec.seen.remove(k);
+    }
+    (removed.len(), max_age)
+}
+
 pub struct RunOut {
     pub final_tip: H,
     pub final_td: U256,
     pub max_reorg_depth: u64,
     pub child_before_parent_across_fork: bool,
+    pub expired: usize,
+    pub max_orphan_age: u64,
 }
 
 fn delivery_order(built: &Built, s: &Schedule) -> Vec<H> {
     let n = built.blocks.len();
+    // mode 4 withholds one block for a generated delay: preferably the root of a side branch (a
+    // block off the heaviest chain with descendants), so that its descendants wait as orphans while
+    // the heaviest chain keeps growing
+    let (withheld, withheld_delay) = if s.mode == 4 && n > 1 {
+        let tree = &built.tree;
+        let best = built.blocks.iter().max_by_key(|h| tree.get(h).td.clone()).unwrap();
+        let on_best: BTreeSet<[u8; 32]> = tree.path(best).iter().map(|b| h32(&b.hash)).collect();
+        let has_child = |h: &H| built.blocks.iter().any(|c| &tree.get(c).parent == h);
+        let mut cands: Vec<usize> = (1..n)
+            .filter(|i| {
+                let h = &built.blocks[*i];
+                !on_best.contains(&h32(h)) && has_child(h) && on_best.contains(&h32(&tree.get(h).parent))
+            })
+            .collect();
+        if cands.is_empty() {
+            cands = (1..=(n / 3).max(1).min(n - 1)).collect();
+        }
+        let w = cands[pick_idx(*s.jitter.first().unwrap_or(&0) as u32, cands.len())];
+        (w, pick_idx(*s.jitter.get(1).unwrap_or(&0) as u32, n + 1 - w) as u64)
+    } else {
+        (usize::MAX, 0)
+    };
     let mut keyed: Vec<(u64, usize)> = (1..n)
         .map(|i| {
             let j = *s.jitter.get(i).unwrap_or(&0) as u64;
@@ -214,6 +312,9 @@ fn delivery_order(built: &Built, s: &Schedule) -> Vec<H> {
                 0 => i as u64 * 8,
                 1 => i as u64 * 8 + (j % 48),
                 2 => j,
+                4 => {
+                    if i == withheld { (i as u64 + withheld_delay) * 8 + 4 } else { i as u64 * 8 }
+                }
                 _ => u64::MAX / 2 - built.tree.get(&built.blocks[i]).number * 65536 + (j % 1024),
             };
             (key, i)
@@ -252,8 +353,11 @@ pub fn run_schedule_with(
     let tree = &built.tree;
     install_panic_recorder();
     clear_panics();
+    ckb_chain::VERIF_CLEAN_ORPHANS_ON_REQUEST.store(s.expiry, std::sync::atomic::Ordering::SeqCst);
     let node = Node::start(env, node_cfg).map_err(|e| Violation::new("harness:node-start", e))?;
     let order = delivery_order(built, s);
+    let mut expired = 0usize;
+    let mut max_orphan_age = 0u64;
     let mut rec = Received { set: BTreeSet::new(), seen: BTreeSet::new() };
     let (tx, rx) = mpsc::channel::<(usize, Result<bool, String>)>();
     let mut results: BTreeMap<usize, Result<bool, String>> = BTreeMap::new();
@@ -437,6 +541,11 @@ pub fn run_schedule_with(
             if is_conn && rec.set.contains(&h32(&b.parent)) || tree.get(&b.parent).number == 0 {
                 if pending_async {
                     quiesce(&node, &barrier)?;
+                    if s.expiry {
+                        let (n, a) = model_expire(tree, &mut rec, &node);
+                        expired += n;
+                        max_orphan_age = max_orphan_age.max(a);
+                    }
                     pending_async = false;
                 }
                 match node.submit(&b.block) {
@@ -470,6 +579,11 @@ pub fn run_schedule_with(
         if want_sync && parent_known_valid_conn && parent_stored && ancestors_valid {
             if pending_async {
                 quiesce(&node, &barrier)?;
+                if s.expiry {
+                    let (n, a) = model_expire(tree, &mut rec, &node);
+                    expired += n;
+                    max_orphan_age = max_orphan_age.max(a);
+                }
                 pending_async = false;
                 check(&node, &rec, &mut last_tip, &mut last_td, &mut max_reorg, &format!("before sync delivery {i}"))?;
             extra(&node, &format!("before sync delivery {i}"), &mut *st)?;
@@ -521,6 +635,11 @@ pub fn run_schedule_with(
             results.insert(i, r);
             // the delivery may have released orphans that are verified asynchronously
             quiesce(&node, &barrier.clone().or_else(|| if in_v(tree, &rec, h) { Some(h.clone()) } else { None }))?;
+            if s.expiry {
+                let (n, a) = model_expire(tree, &mut rec, &node);
+                expired += n;
+                max_orphan_age = max_orphan_age.max(a);
+            }
             check(&node, &rec, &mut last_tip, &mut last_td, &mut max_reorg, &format!("after sync delivery {i} (#{})", b.number))?;
             extra(&node, &format!("after sync delivery {i} (#{})", b.number), &mut *st)?;
             if barrier.is_none() && in_v(tree, &rec, h) {
@@ -535,11 +654,16 @@ pub fn run_schedule_with(
             }
             pending_async = true;
             in_burst += 1;
-            let blen = s.bursts[burst_i % s.bursts.len()];
+            let blen = if s.expiry { 1 } else { s.bursts[burst_i % s.bursts.len()] };
             if in_burst >= blen {
                 in_burst = 0;
                 burst_i += 1;
                 quiesce(&node, &barrier)?;
+                if s.expiry {
+                    let (n, a) = model_expire(tree, &mut rec, &node);
+                    expired += n;
+                    max_orphan_age = max_orphan_age.max(a);
+                }
                 pending_async = false;
                 check(&node, &rec, &mut last_tip, &mut last_td, &mut max_reorg, &format!("after async burst ending at delivery {i}"))?;
             extra(&node, &format!("after async burst ending at delivery {i}"), &mut *st)?;
@@ -559,7 +683,34 @@ pub fn run_schedule_with(
             results.insert(tag, r);
         }
     }
+    if s.expiry {
+        // blocks dropped by the clean-up are forgotten: offered again (parents first) they must be
+        // accepted and connected like new ones
+        for h in built.blocks.iter() {
+            let b = tree.get(h);
+            if rec.seen.contains(&h32(h)) || header_invalid(b) || b.number == 0 {
+                continue;
+            }
+            let (rtx, _rrx) = mpsc::channel();
+            node.deliver_async(&b.block, usize::MAX - 1, rtx);
+            st.label("delivery:again-after-expiry");
+            rec.seen.insert(h32(h));
+            if !nc_invalid(b) {
+                rec.set.insert(h32(h));
+            }
+            quiesce(&node, &barrier)?;
+            let (n, a) = model_expire(tree, &mut rec, &node);
+            expired += n;
+            max_orphan_age = max_orphan_age.max(a);
+            check(&node, &rec, &mut last_tip, &mut last_td, &mut max_reorg, &format!("after offering #{} again", b.number))?;
+        }
+    }
     quiesce(&node, &barrier)?;
+    if s.expiry {
+        let (n, a) = model_expire(tree, &mut rec, &node);
+        expired += n;
+        max_orphan_age = max_orphan_age.max(a);
+    }
     check(&node, &rec, &mut last_tip, &mut last_td, &mut max_reorg, "final")?;
             extra(&node, "final", &mut *st)?;
     while let Ok((tag, r)) = rx.try_recv() {
@@ -587,6 +738,8 @@ pub fn run_schedule_with(
         final_td: last_td,
         max_reorg_depth: max_reorg,
         child_before_parent_across_fork: cbp_fork,
+        expired,
+        max_orphan_age,
     };
     Ok((out, node))
 }
@@ -628,13 +781,27 @@ fn prop(case: &Case, st: &mut Stats) -> Verdict {
         if invalid_on_heavier {
             st.label("schedule:invalid-block-on-heavier-branch");
         }
-        if out.max_reorg_depth >= 2 || out.child_before_parent_across_fork || invalid_on_heavier {
+        if s.expiry {
+            if out.expired > 0 {
+                st.label("expiry:orphans-dropped-beyond-horizon");
+            }
+            if out.max_orphan_age >= 3 {
+                st.label("expiry:orphan-kept-3+-epochs-behind-tip");
+            }
+        }
+        let family_nontrivial = if s.expiry {
+            out.expired > 0 || out.max_orphan_age >= 3
+        } else {
+            out.max_reorg_depth >= 2 || out.child_before_parent_across_fork || invalid_on_heavier
+        };
+        if family_nontrivial {
             st.nontrivial(&(serde_json::to_string(&case.plan).unwrap(), serde_json::to_string(s).unwrap(), case.variant));
             if st.want_sample() {
                 st.sample(|| {
                     json!({"variant": case.variant, "blocks": built.blocks.len(),
                         "tree": built.blocks.iter().map(|h| { let b = built.tree.get(h); json!({"n": b.number, "parent_n": built.tree.get(&b.parent).number, "txs": b.block.transactions().len()-1, "uncles": b.block.uncles().data().len(), "invalid": b.invalid})}).collect::<Vec<_>>(),
                         "schedule_mode": s.mode, "sync_pct": s.sync_pct, "dups": s.dups.len(),
+                        "expired_orphans": out.expired, "max_orphan_age_epochs": out.max_orphan_age,
                         "max_reorg_depth": out.max_reorg_depth, "final_tip_number": built.tree.get(&out.final_tip).number})
                 });
             }
@@ -684,12 +851,53 @@ pub fn dup_case_strategy() -> impl Strategy<Value = Case> {
                     sync_pct: 0,
                     sync_sel,
                     bursts: vec![40],
+                    expiry: false,
                 }),
             2..=2,
         ),
     )
         .prop_map(|(variant, plan, schedules)| Case {
             variant,
+            plan,
+            schedules,
+        })
+}
+
+/// expiry family: 2 blocks per epoch, one early block withheld for a generated delay so that its
+/// descendants wait in the orphan pool while the rest of the tree grows past the retention horizon
+pub fn expiry_case_strategy() -> impl Strategy<Value = Case> {
+    let p = PlanParams {
+        min_blocks: 24,
+        max_blocks: 48,
+        fork_pct: 30,
+        tx_rate: 10,
+        invalid_pct: 3,
+        uncle_pct: 5,
+        dao_pct: 0,
+    };
+    (
+        tree_plan_strategy(p),
+        proptest::collection::vec(
+            (
+                proptest::collection::vec(any::<u16>(), 2),
+                proptest::collection::vec((any::<u16>(), any::<u16>()), 0..3),
+                prop_oneof![Just(0u8), Just(50u8)],
+                proptest::collection::vec(any::<u8>(), 16),
+            )
+                .prop_map(|(jitter, dups, sync_pct, sync_sel)| Schedule {
+                    mode: 4,
+                    jitter,
+                    dups,
+                    sync_pct,
+                    sync_sel,
+                    bursts: vec![1],
+                    expiry: true,
+                }),
+            1..=2,
+        ),
+    )
+        .prop_map(|(plan, schedules)| Case {
+            variant: 4,
             plan,
             schedules,
         })
@@ -702,6 +910,8 @@ fn run(ctx: &Ctx) {
     ctx.run_prop("tree-x-schedules", cases, case_strategy(max_blocks), prop);
     let cases = ctx.cases(600, 9000);
     ctx.run_prop("duplicates-of-failing-blocks", cases, dup_case_strategy(), prop);
+    let cases = ctx.cases(300, 4000);
+    ctx.run_prop("orphan-retention-horizon", cases, expiry_case_strategy(), prop);
 }
 
 fn replay(ctx: &Ctx, _sub: &str, v: &Value) -> Verdict {
